@@ -5,6 +5,7 @@ package world
 
 import (
 	"fmt"
+	"os"
 	"math/rand"
 	"sort"
 	"strconv"
@@ -88,6 +89,8 @@ type World struct {
 	Counters map[string]int64
 	Samples  []string
 	StateSet map[string]struct{}
+	// Cases are the signatures of the distinct non-trivial cases observed (per the check's rule).
+	Cases map[string]int
 
 	// options
 	BeginStates bool // snapshot after BeginBlock too
@@ -116,7 +119,7 @@ type Owner struct {
 
 func New(seed int64, c *chain.Chain) *World {
 	return &World{C: c, Seed: seed, Rng: rand.New(rand.NewSource(seed)), violSeen: map[string]int{},
-		Counters: map[string]int64{}, StateSet: map[string]struct{}{}, Accts: map[string]*actors.Account{}, Notes: map[string]interface{}{}}
+		Counters: map[string]int64{}, Cases: map[string]int{}, StateSet: map[string]struct{}{}, Accts: map[string]*actors.Account{}, Notes: map[string]interface{}{}}
 }
 
 func (w *World) AddMonitor(m ...Monitor) { w.Mons = append(w.Mons, m...) }
@@ -130,9 +133,45 @@ func (w *World) Violate(prop, key, msg string, detail interface{}) {
 	}
 	h := w.C.Header.Height
 	w.Viol = append(w.Viol, Violation{Prop: prop, Key: key, Msg: msg, Height: h, Detail: detail})
+	if dk := os.Getenv("SAOMON_DUMP"); dk != "" && strings.Contains(key, dk) {
+		w.DumpState(os.Stderr, prop+" "+key+": "+msg)
+	}
+}
+
+// DumpState writes the current snapshot and the tail of the trace (debugging aid).
+func (w *World) DumpState(out *os.File, title string) {
+	fmt.Fprintf(out, "==== %s (height %d)\n", title, w.C.Header.Height)
+	s := w.Cur
+	if s == nil {
+		return
+	}
+	for _, o := range s.Orders {
+		fmt.Fprintf(out, "ORDER %+v\n", o)
+	}
+	for _, x := range s.Shards {
+		fmt.Fprintf(out, "SHARD %+v\n", x)
+	}
+	for _, m := range s.Metas {
+		fmt.Fprintf(out, "META %+v\n", m)
+	}
+	for k, p := range s.Pledges {
+		fmt.Fprintf(out, "PLEDGE %s %+v debt=%v\n", k, p, s.Debts[k])
+	}
+	for k, p := range s.Workers {
+		fmt.Fprintf(out, "WORKER %s %+v\n", k, p)
+	}
+	fmt.Fprintf(out, "EXPDATA %v\nEXPSHARDS %v\nTIMEOUTS %v\n", s.ExpData, s.ExpShards, s.Timeouts)
+	n := len(w.Trace)
+	if n > 80 {
+		n = 80
+	}
+	fmt.Fprintf(out, "TRACE(tail) %v\n", w.Trace[len(w.Trace)-n:])
 }
 
 func (w *World) Count(name string, n int64) { w.Counters[name] += n }
+
+// Case records one observed non-trivial case signature.
+func (w *World) Case(format string, a ...interface{}) { w.Cases[fmt.Sprintf(format, a...)]++ }
 
 func (w *World) Sample(format string, a ...interface{}) {
 	if len(w.Samples) < 40 {
@@ -152,8 +191,36 @@ func (w *World) Acct(name string) *actors.Account {
 // Halted reports whether the chain stopped (panic outside DeliverTx or hang).
 func (w *World) Halted() bool { return w.Halt != nil }
 
+var watchLast string
+
 func (w *World) snapshot() *mon.State {
 	s := mon.Snapshot(w.C)
+	if wo := os.Getenv("SAOMON_WATCH"); wo != "" {
+		var id uint64
+		fmt.Sscan(wo, &id)
+		cur := ""
+		if o, ok := s.Orders[id]; ok {
+			var parts []string
+			for _, o2 := range s.Orders {
+				if o2.DataId == o.DataId {
+					parts = append(parts, fmt.Sprintf("order %03d op=%d st=%d shards=%v |", o2.Id, o2.Operation, o2.Status, o2.Shards))
+				}
+			}
+			for _, sh := range s.Shards {
+				if so, ok := s.Orders[sh.OrderId]; ok && so.DataId == o.DataId {
+					parts = append(parts, fmt.Sprintf("shard %03d ord=%d st=%d cat=%d dur=%d sp=%s from=%s ri=%d |", sh.Id, sh.OrderId, sh.Status, sh.CreatedAt, sh.Duration, sh.Sp[len(sh.Sp)-4:], sh.From, len(sh.RenewInfos)))
+				}
+			}
+			sort.Strings(parts)
+			cur = strings.Join(parts, " ")
+		} else {
+			cur = "order absent"
+		}
+		if cur != watchLast {
+			fmt.Fprintf(os.Stderr, "WATCH h=%d inblock=%v last=%v: %s\n", w.C.Header.Height, w.C.InBlock, lastOf(w.Trace), cur)
+			watchLast = cur
+		}
+	}
 	if w.HashStates {
 		w.StateSet[s.Hash()] = struct{}{}
 	}
@@ -349,4 +416,11 @@ func AttrU64(marks []mon.Marker, typ, attr string) (uint64, bool) {
 func (w *World) NewDataId() string {
 	w.dataSeq++
 	return fmt.Sprintf("%08x-%04x-4000-8000-%012x", uint32(w.Seed), w.dataSeq&0xffff, w.dataSeq)
+}
+
+func lastOf(t []string) string {
+	if len(t) == 0 {
+		return ""
+	}
+	return t[len(t)-1]
 }
